@@ -154,6 +154,13 @@ fn build_add(lhs: &AstNode, rhs: &AstNode) -> Result<Evaluator> {
           value_null!("addition err 3")
         }
       }
+      Value::YearsAndMonthsDuration(lh) => {
+        if let Value::YearsAndMonthsDuration(rh) = rhv {
+          Value::YearsAndMonthsDuration(FeelYearsAndMonthsDuration::new_m(lh.as_months() + rh.as_months()))
+        } else {
+          value_null!("addition err 4")
+        }
+      }
       value @ Value::Null(_) => value,
       _ => value_null!("addition err"),
     }
@@ -868,6 +875,22 @@ fn build_ge(lhs: &AstNode, rhs: &AstNode) -> Result<Evaluator> {
         Value::Date(rh) => Value::Boolean(lh >= rh),
         _ => value_null!("eval_less_or_equal_date"),
       },
+      Value::DateTime(lh) => match rhv {
+        Value::DateTime(rh) => lh.after_or_equal(&rh).map_or_else(|| value_null!("date and time values are not comparable"), Value::Boolean),
+        _ => value_null!("expected date and time on the right side of the comparison"),
+      },
+      Value::Time(lh) => match rhv {
+        Value::Time(rh) => lh.after_or_equal(&rh).map_or_else(|| value_null!("time values are not comparable"), Value::Boolean),
+        _ => value_null!("expected time on the right side of the comparison"),
+      },
+      Value::DaysAndTimeDuration(lh) => match rhv {
+        Value::DaysAndTimeDuration(rh) => Value::Boolean(lh >= rh),
+        _ => value_null!("expected days and time duration on the right side of the comparison"),
+      },
+      Value::YearsAndMonthsDuration(lh) => match rhv {
+        Value::YearsAndMonthsDuration(rh) => Value::Boolean(lh >= rh),
+        _ => value_null!("expected years and months duration on the right side of the comparison"),
+      },
       _ => value_null!("eval_less_or_equal"),
     }
   }))
@@ -892,6 +915,22 @@ fn build_gt(lhs: &AstNode, rhs: &AstNode) -> Result<Evaluator> {
       Value::Date(lh) => match rhv {
         Value::Date(rh) => Value::Boolean(lh > rh),
         _ => value_null!("eval_greater_then_date"),
+      },
+      Value::DateTime(lh) => match rhv {
+        Value::DateTime(rh) => lh.after(&rh).map_or_else(|| value_null!("date and time values are not comparable"), Value::Boolean),
+        _ => value_null!("expected date and time on the right side of the comparison"),
+      },
+      Value::Time(lh) => match rhv {
+        Value::Time(rh) => lh.after(&rh).map_or_else(|| value_null!("time values are not comparable"), Value::Boolean),
+        _ => value_null!("expected time on the right side of the comparison"),
+      },
+      Value::DaysAndTimeDuration(lh) => match rhv {
+        Value::DaysAndTimeDuration(rh) => Value::Boolean(lh > rh),
+        _ => value_null!("expected days and time duration on the right side of the comparison"),
+      },
+      Value::YearsAndMonthsDuration(lh) => match rhv {
+        Value::YearsAndMonthsDuration(rh) => Value::Boolean(lh > rh),
+        _ => value_null!("expected years and months duration on the right side of the comparison"),
       },
       _ => value_null!("eval_greater_then"),
     }
@@ -1074,6 +1113,22 @@ fn build_le(lhs: &AstNode, rhs: &AstNode) -> Result<Evaluator> {
         Value::Date(rh) => Value::Boolean(lh <= rh),
         _ => value_null!("eval_less_or_equal_date"),
       },
+      Value::DateTime(lh) => match rhv {
+        Value::DateTime(rh) => lh.before_or_equal(&rh).map_or_else(|| value_null!("date and time values are not comparable"), Value::Boolean),
+        _ => value_null!("expected date and time on the right side of the comparison"),
+      },
+      Value::Time(lh) => match rhv {
+        Value::Time(rh) => lh.before_or_equal(&rh).map_or_else(|| value_null!("time values are not comparable"), Value::Boolean),
+        _ => value_null!("expected time on the right side of the comparison"),
+      },
+      Value::DaysAndTimeDuration(lh) => match rhv {
+        Value::DaysAndTimeDuration(rh) => Value::Boolean(lh <= rh),
+        _ => value_null!("expected days and time duration on the right side of the comparison"),
+      },
+      Value::YearsAndMonthsDuration(lh) => match rhv {
+        Value::YearsAndMonthsDuration(rh) => Value::Boolean(lh <= rh),
+        _ => value_null!("expected years and months duration on the right side of the comparison"),
+      },
       _ => value_null!("eval_less_or_equal"),
     }
   }))
@@ -1098,6 +1153,22 @@ fn build_lt(lhs: &AstNode, rhs: &AstNode) -> Result<Evaluator> {
       Value::Date(lh) => match rhv {
         Value::Date(rh) => Value::Boolean(lh < rh),
         _ => value_null!("eval_less_then_date"),
+      },
+      Value::DateTime(lh) => match rhv {
+        Value::DateTime(rh) => lh.before(&rh).map_or_else(|| value_null!("date and time values are not comparable"), Value::Boolean),
+        _ => value_null!("expected date and time on the right side of the comparison"),
+      },
+      Value::Time(lh) => match rhv {
+        Value::Time(rh) => lh.before(&rh).map_or_else(|| value_null!("time values are not comparable"), Value::Boolean),
+        _ => value_null!("expected time on the right side of the comparison"),
+      },
+      Value::DaysAndTimeDuration(lh) => match rhv {
+        Value::DaysAndTimeDuration(rh) => Value::Boolean(lh < rh),
+        _ => value_null!("expected days and time duration on the right side of the comparison"),
+      },
+      Value::YearsAndMonthsDuration(lh) => match rhv {
+        Value::YearsAndMonthsDuration(rh) => Value::Boolean(lh < rh),
+        _ => value_null!("expected years and months duration on the right side of the comparison"),
       },
       _ => value_null!("eval_less_then"),
     }
@@ -1205,6 +1276,7 @@ fn build_neg(lhs: &AstNode) -> Result<Evaluator> {
     match lhv {
       Value::Number(lh) => Value::Number(-lh),
       Value::DaysAndTimeDuration(lh) => Value::DaysAndTimeDuration(-lh),
+      Value::YearsAndMonthsDuration(lh) => Value::YearsAndMonthsDuration(FeelYearsAndMonthsDuration::new_m(-lh.as_months())),
       _ => value_null!("arithmetic negation err 1"),
     }
   }))
@@ -1565,6 +1637,16 @@ fn build_sub(lhs: &AstNode, rhs: &AstNode) -> Result<Evaluator> {
           if let Some(a) = subtract(lh, rh) {
             return Value::DaysAndTimeDuration(FeelDaysAndTimeDuration::default().nano(a).build());
           }
+        }
+      }
+      Value::DaysAndTimeDuration(ref lh) => {
+        if let Value::DaysAndTimeDuration(ref rh) = rhv {
+          return Value::DaysAndTimeDuration(lh.clone() - rh.clone());
+        }
+      }
+      Value::YearsAndMonthsDuration(ref lh) => {
+        if let Value::YearsAndMonthsDuration(ref rh) = rhv {
+          return Value::YearsAndMonthsDuration(FeelYearsAndMonthsDuration::new_m(lh.as_months() - rh.as_months()));
         }
       }
       _ => {}
